@@ -1,6 +1,9 @@
 use tevec::prelude::*;
 fn main() {
-    let x: Vec<f64> = (0..20).map(|i| i as f64).collect();
-    println!("half_life(0..20) = {}", x.half_life(None));
-    for lag in 8..14 { let c: f64 = x.titer().vcorr_pearson(x.titer().vshift(lag, None), 10); println!("  corr(lag {}) = {}", lag, c); }
+    let x = vec![1., 2., 3., 4., 5.];
+    let r: Vec<f64> = x.ts_vreg_resid_mean(3, None); println!("resid_mean of a perfect line = {:?}", r);
+    let r: Vec<f64> = x.ts_vreg_slope(3, None); println!("slope = {:?}", r);
+    let big: Vec<f64> = (0..60000).map(|i| (i % 7) as f64).collect();
+    let r = std::panic::catch_unwind(|| { let r: Vec<f64> = big.ts_vreg_slope(60000, Some(2)); r[59999] });
+    println!("slope n=60000: {:?}", r.map_err(|_| "PANIC"));
 }
